@@ -110,6 +110,21 @@ class BlockReduceFilter(Contract):
             if ncomp == 1:
                 data, w = data[0], (w[0] if w else None)
             yield (est, tuple(coords), data), dict(weights=w)
+        # integer (and float32) coordinates / data: pandas keeps the integer dtype under sum / min, so anything
+        # written back into the reduced columns (the block centres) has to survive that dtype
+        for _ in range(16 if tier == "thorough" else 6):
+            n = rng.randint(3, 12)
+            ck = rng.choice(["i", "i", "f4", "mixed"])
+            e, nn_ = nrng.randint(-20, 20, n), nrng.randint(-20, 20, n)
+            if ck == "f4":
+                e, nn_ = (e + 0.25).astype("float32"), (nn_ - 0.5).astype("float32")
+            elif ck == "mixed":
+                nn_ = nn_ + 0.125
+            coords = (e, nn_) + ((nrng.randint(0, 9, n),) if rng.random() < 0.5 else ())
+            data = nrng.randint(-9, 9, n) if rng.random() < 0.6 else nrng.uniform(-9, 9, n)
+            red = rng.choice(["sum", "min", "mean", "median"])
+            est = verde.BlockReduce(REDS[red][0], spacing=rng.choice([3.0, 5, (7, 3)]), center_coordinates=rng.random() < 0.7, drop_coords=rng.random() < 0.5, adjust=rng.choice(["spacing", "region"]))
+            yield (est, coords, data), dict(weights=None)
 
     tol = (1e-9, 1e-9)
 
